@@ -122,10 +122,13 @@ def scanAll (fx : Bool) (m : Meta) (numRows : Nat) (rest : Bytes) : ROut :=
 /-! ### Iter.RowData (the destinations of MapScan / SliceMap): helpers.go goType
 
 `TypeInfo.NewWithError` → `goType` builds a reflect.Type per column; for a map it calls
-`reflect.MapOf(keyType, valueType)`, which PANICS when the key's Go type is not comparable: blob
+`reflect.MapOf(keyType, valueType)`, which panics when the key's Go type is not comparable: blob
 ([]byte), list / set (slices), map, tuple ([]interface{}), UDT (map[string]interface{}). CQL allows
 frozen collections, tuples and UDTs as map keys, so `map<frozen<list<int>>, int>` is a legal column
-type on which MapScan / SliceMap / RowData panic in the application goroutine (KF-C05-14). -/
+type. This check found the panic (KF-C05-14) while /repo was at 19ec182; the guard
+`if !keyType.Comparable() { return nil, err }` is in the tree since /repo commit c637d3e, so `goType`
+below returns `err` there. `mapOfGuard = false` is the code before that commit (kept for the
+counterexample theorem that documents the finding). -/
 
 inductive GT
   | ok (comparable : Bool)
@@ -139,7 +142,7 @@ def GT.isCrash : GT → Bool
   | _ => false
 
 /-- helpers.go goType on a parsed type tree -/
-def goType : TI → GT
+def goTypeG (mapOfGuard : Bool) : TI → GT
   | .simple t =>
     if t == 0x03 then .ok false                                   -- blob: []byte
     else if t == 0x20 || t == 0x21 || t == 0x22 || t == 0x31 then .crashAssert
@@ -149,18 +152,21 @@ def goType : TI → GT
             t == 0x12 || t == 0x13 || t == 0x14 || t == 0x15 then .ok true
     else .err
   | .list e =>
-    match goType e with
+    match goTypeG mapOfGuard e with
     | .ok _ => .ok false
     | o => o
   | .map k v =>
-    match goType k with
+    match goTypeG mapOfGuard k with
     | .ok ck =>
-      (match goType v with
-       | .ok _ => if ck then .ok false else .crashMapOf
+      (match goTypeG mapOfGuard v with
+       | .ok _ => if ck then .ok false else if mapOfGuard then .err else .crashMapOf
        | o => o)
     | o => o
   | .tuple _ => .ok false
   | .udt _ => .ok false
+
+/-- goType of the current tree (guard present) -/
+def goType (t : TI) : GT := goTypeG true t
 
 inductive RD
   | ok (n : Nat)
@@ -173,35 +179,31 @@ def RD.isCrash : RD → Bool
   | .crashMapOf | .crashAssert => true
   | _ => false
 
-def goTypes : List TI → Nat → RD
+def goTypes (g : Bool) : List TI → Nat → RD
   | [], n => .ok n
   | t :: r, n =>
-    match goType t with
-    | .ok _ => goTypes r (n + 1)
+    match goTypeG g t with
+    | .ok _ => goTypes g r (n + 1)
     | .err => .err
     | .crashMapOf => .crashMapOf
     | .crashAssert => .crashAssert
 
 /-- Iter.RowData: one value per column, one per element for tuple columns -/
-def rowData : List TI → Nat → RD
+def rowDataG (g : Bool) : List TI → Nat → RD
   | [], n => .ok n
   | .tuple es :: r, n =>
-    (match goTypes es n with
-     | .ok m => rowData r m
+    (match goTypes g es n with
+     | .ok m => rowDataG g r m
      | o => o)
   | t :: r, n =>
-    match goType t with
-    | .ok _ => rowData r (n + 1)
+    match goTypeG g t with
+    | .ok _ => rowDataG g r (n + 1)
     | .err => .err
     | .crashMapOf => .crashMapOf
     | .crashAssert => .crashAssert
 
-/-- `fx = true`: with props/C05.fix-10.diff goType returns an error instead of calling reflect.MapOf
-with a key type that is not comparable -/
-def rowDataFx (fx : Bool) (cols : List TI) (n : Nat) : RD :=
-  match rowData cols n with
-  | .crashMapOf => if fx then .err else .crashMapOf
-  | o => o
+/-- Iter.RowData of the current tree -/
+def rowData (cols : List TI) (n : Nat) : RD := rowDataG true cols n
 
 /-- the decidable shape that makes goType panic: a map whose key type is not comparable in Go
 (searched where goType looks: through list / set elements and map keys / values, not into tuple or
@@ -231,10 +233,17 @@ def iterate (fx : Bool) (proto flags : Nat) (body : Bytes) : Option ROut :=
   | .ok (.rows m n) st => some (scanAll fx m n st.buf)
   | _ => none
 
+/-- the same before /repo commit c637d3e (no Comparable guard) and before 8351452 is NOT modelled; this
+is the current parser with the old goType, enough to replay the finding's witnesses -/
+def newRowOld (proto flags : Nat) (body : Bytes) : Option RD :=
+  match parseFrame false proto true flags 8 body with
+  | .ok (.rows m _) _ => some (rowDataG false m.cols 0)
+  | _ => none
+
 /-- parse a RESULT frame body and, when it is a ROWS result, build MapScan's destinations -/
 def newRow (fx : Bool) (proto flags : Nat) (body : Bytes) : Option RD :=
   match parseFrame fx proto true flags 8 body with
-  | .ok (.rows m _) _ => some (rowDataFx fx m.cols 0)
+  | .ok (.rows m _) _ => some (rowData m.cols 0)
   | _ => none
 
 end RowsCrash
